@@ -451,9 +451,14 @@ class Program(object):
                 os.replace(cache + ".tmp%d" % os.getpid(), cache)
             except Exception:
                 pass
+        from . import inline
+        self.inlined = 0
         for f, j in loaded:
+            if not j.get("is_test"):
+                self.inlined += inline.inline_crate(j)
             self.crates.append(Crate(j, f))
         self.bodies = {}
+        self.helper_bodies = {}
         self.lib_bodies = {}
         self.adts = {}
         self.consts = {}
@@ -466,6 +471,10 @@ class Program(object):
             for b in c.bodies:
                 k = b.key if is_lib else "%s@%s" % (b.key, c.kind)
                 self.bodies[k] = b
+                if is_lib and b.j.get("inlined_into_callers"):
+                    # a helper that does not exist on the pinned tree and was merged into its callers
+                    self.helper_bodies[b.key] = b
+                    continue
                 if is_lib:
                     self.lib_bodies[b.key] = b
             if is_lib:
